@@ -691,13 +691,17 @@ TOP:
 				ov = ov.Elem()
 			}
 			if ov.Kind() == reflect.Struct {
-				if fv := ov.FieldByName(fd.goField); fv.IsValid() {
+				if fv := ov.FieldByName(goField); fv.IsValid() {
 					value = fv.Interface()
 				}
 			}
 		case method != nil:
-			args := root.formReflectArgs(ov, vars, field)
-			mva := fd.method.Call(args)
+			args, ea2 := root.formReflectArgs(ov, vars, field, fd, method)
+			if 0 < len(ea2) {
+				ea = append(ea, ea2...)
+				return
+			}
+			mva := method.Call(args)
 			switch len(mva) {
 			case 1:
 				value = mva[0].Interface()
@@ -714,17 +718,43 @@ TOP:
 	return
 }
 
-func (root *Root) formReflectArgs(ov reflect.Value, vars map[string]interface{}, field *Field) (args []reflect.Value) {
-	args = make([]reflect.Value, 0, len(field.Args)+1)
+// formReflectArgs builds the arguments for a reflected method call from the
+// checked and coerced arguments of the field, in declared order, converted to
+// the parameter types of the method. An argument that was not provided or is
+// null becomes the zero value of the parameter.
+func (root *Root) formReflectArgs(
+	ov reflect.Value,
+	vars map[string]interface{},
+	field *Field,
+	fd *FieldDef,
+	method *reflect.Value) (args []reflect.Value, ea []error) {
+
+	var coerced map[string]interface{}
+	if coerced, ea = root.formArgs(vars, field, fd); 0 < len(ea) {
+		return nil, ea
+	}
+	mt := method.Type()
+	if mt.IsVariadic() || mt.NumIn() != len(fd.args.list)+1 {
+		return nil, []error{resWarn(field.line, field.col, "%s.%s takes %d arguments but %d are declared for %s",
+			mt.In(0), field.Name, mt.NumIn()-1, len(fd.args.list), field.Name)}
+	}
+	args = make([]reflect.Value, 0, len(fd.args.list)+1)
 	args = append(args, ov)
-	// Build the args by combining provided args and variable values as
-	// appropriate.
-	for _, av := range field.Args {
-		if vr, ok := av.Value.(Var); ok && vars != nil {
-			args = append(args, reflect.ValueOf(vars[string(vr)]))
-		} else {
-			args = append(args, reflect.ValueOf(av.Value))
+	for i, a := range fd.args.list {
+		pt := mt.In(i + 1)
+		av := reflect.ValueOf(coerced[a.N])
+		switch {
+		case !av.IsValid():
+			av = reflect.Zero(pt)
+		case av.Type().AssignableTo(pt):
+			// ok as is
+		case av.Type().ConvertibleTo(pt) && (av.Kind() == reflect.String) == (pt.Kind() == reflect.String):
+			av = av.Convert(pt)
+		default:
+			return nil, []error{resWarn(field.line, field.col, "can not pass a %T as argument %s of %s.%s",
+				coerced[a.N], a.N, mt.In(0), field.Name)}
 		}
+		args = append(args, av)
 	}
 	return
 }
